@@ -26,6 +26,10 @@ pub struct Term {
     pub x: Xfer,
     pub kind: TermKind,
     pub at_us: u32,
+    /// targeted loss: the first `drop_close` datagrams a closing connection emits after close() are
+    /// dropped by the link (the path keeps delivering everything else)
+    #[serde(default)]
+    pub drop_close: u8,
 }
 
 pub fn arb_term() -> impl Strategy<Value = Term> {
@@ -38,7 +42,7 @@ pub fn arb_term() -> impl Strategy<Value = Term> {
     ];
     let idle = || prop_oneof![1 => Just(None), 3 => (1u32..30_000).prop_map(Some)];
     let ka = || prop_oneof![2 => Just(None), 1 => (1u32..20_000).prop_map(Some)];
-    (arb_xfer(g), kind, prop_oneof![0u32..3_000, 0u32..3_000_000], idle(), idle(), ka(), ka(), any::<bool>()).prop_map(|(mut x, kind, at_us, ic, is, kc, ks, clean_tail)| {
+    (arb_xfer(g), kind, prop_oneof![0u32..3_000, 0u32..3_000_000], idle(), idle(), ka(), ka(), any::<bool>(), prop_oneof![3 => Just(0u8), 2 => 1u8..3]).prop_map(|(mut x, kind, at_us, ic, is, kc, ks, clean_tail, drop_close)| {
         x.net.client_tc.idle_ms = ic;
         x.net.server_tc.idle_ms = is;
         x.net.client_tc.keep_alive_ms = kc;
@@ -62,7 +66,7 @@ pub fn arb_term() -> impl Strategy<Value = Term> {
         // exhaust the window)
         x.net.client_tc.pad_to_mtu = false;
         x.net.server_tc.pad_to_mtu = false;
-        Term { x, kind, at_us }
+        Term { x, kind, at_us, drop_close }
     })
 }
 
@@ -109,6 +113,7 @@ pub fn case(tm: &Term) -> CaseOut {
     let mut closers: Vec<usize> = vec![];
     let mut close_info: BTreeMap<usize, (u64, u64, Vec<u8>, bool)> = BTreeMap::new(); // k -> (pto*3 at close, code, reason, had_1rtt)
     let mut amp_blocked: BTreeMap<usize, bool> = BTreeMap::new();
+    let mut established_at_close: BTreeMap<usize, bool> = BTreeMap::new();
     let mut non_quiescent = false;
     let mut reset_injected_to: Option<usize> = None;
     w.now = w.now.max(at);
@@ -134,6 +139,7 @@ pub fn case(tm: &Term) -> CaseOut {
                 // anti-amplification legitimately silences an unvalidated server
                 amp_blocked.insert(k, !p.path_validated && p.path_total_sent + 1 > 3 * p.path_total_recvd);
                 close_info.insert(k, (3 * pto, *code as u64, reason.clone(), p.highest_space == 2));
+                established_at_close.insert(k, p.state == 1 && p.highest_space == 2);
             }
         }
         TermKind::Blackhole => {
@@ -175,6 +181,23 @@ pub fn case(tm: &Term) -> CaseOut {
             }
         }
         TermKind::Nothing => {}
+    }
+    // targeted loss of the closers' first datagrams (not counted as a link fault: everything else is
+    // delivered, so the peer can still learn the close from the answer to its next packet)
+    if tm.drop_close > 0 && !closers.is_empty() {
+        let cl2 = closers.clone();
+        let mut left: BTreeMap<usize, u8> = cl2.iter().map(|k| (*k, tm.drop_close)).collect();
+        w.link_hook = Some(Box::new(move |_now, _id, f| {
+            if let Some(o) = f.origin_conn {
+                if let Some(n) = left.get_mut(&o) {
+                    if *n > 0 {
+                        *n -= 1;
+                        f.bytes.clear();
+                    }
+                }
+            }
+            vec![]
+        }));
     }
     // announce-at-once: drive the closers right now and look at what they emit
     let trace_mark = w.trace.len();
@@ -255,6 +278,14 @@ pub fn case(tm: &Term) -> CaseOut {
             }
         }
     }
+    let short_dgrams: std::collections::BTreeSet<u64> = w
+        .trace
+        .iter()
+        .flat_map(|r| match r {
+            Rec::Tx { dgrams, .. } => dgrams.iter().filter(|d| d.pkts.iter().any(|p| p.ty == crate::wire::PktType::Short)).map(|d| d.id).collect::<Vec<_>>(),
+            _ => vec![],
+        })
+        .collect();
     let clean_after = w.blackhole_at.is_none() && w.last_fault_at < at && w.stats.dgrams_mtu_dropped == 0;
     let mut labels = vec![];
     for (k, c) in w.conns.iter().enumerate() {
@@ -405,6 +436,28 @@ pub fn case(tm: &Term) -> CaseOut {
             // the close must have arrived while this side was still alive
             let arrival = close_delivered_at.get(&k).copied().unwrap_or(peer_closed_at);
             let alive_then = c.lost_at.map_or(true, |l| l >= arrival) && !matches!(c.drained_at, Some(d) if d < arrival);
+            // after a targeted loss of the first close datagram(s) the closer repeats its close only in
+            // answer to a packet of this side that reaches it before it has drained
+            // (a packet it can process: 1-RTT packets, both sides established when close() was called;
+            // each such arrival triggers one more close datagram, of which the first `drop_close - 1`
+            // are dropped as well)
+            let answered = tm.drop_close == 0 || {
+                let (ct, dt) = (w.conns[p].closed_at.unwrap_or(0), w.conns[p].drained_at.unwrap_or(u64::MAX));
+                let pep = w.conns[p].ep;
+                let established = established_at_close.get(&p).copied().unwrap_or(false) && c.app.connected;
+                let arrivals = w
+                    .trace
+                    .iter()
+                    .filter_map(|r| match r {
+                        Rec::Rx { t, ep, dgram_id, origin_conn: Some(o), corrupted: false, injected: false, copy: 0, routed: Routed::Conn(q), .. } if *o == k && *q == p && *ep == pep && *t > ct && *t + 1 < dt && short_dgrams.contains(dgram_id) => Some(*t),
+                        _ => None,
+                    })
+                    // packets arriving at one instant are answered by one close datagram
+                    .collect::<std::collections::BTreeSet<u64>>()
+                    .len();
+                established && arrivals >= tm.drop_close as usize
+            };
+            let alive_then = alive_then && answered;
             if let (Some((_, code, rsn, had_1rtt)), true, false) = (close_info.get(&p), alive_then, amp_blocked.get(&p).copied().unwrap_or(false)) {
                 if c.closed_at.is_none() && c.lost_at.is_none() && !c.gone {
                     return CaseOut::fail("c08/peer-never-learned-close", format!("{side:?}: the peer closed (code {code}) over a clean path but this side never reported ConnectionLost"));
